@@ -131,6 +131,14 @@ RECURSIVE PowU(_, _)
 PowU(a, n) == IF n = 0 THEN One
               ELSE LET h == TLCEval(PowU(a, n \div 2))  s == TLCEval(Mul(h, h)) IN IF n % 2 = 1 THEN Mul(s, a) ELSE s
 
+\* a ** e modulo 2^Width for an exponent given as limbs (unsigned): left-to-right square and multiply
+RECURSIVE PowLFrom(_, _, _, _)
+PowLFrom(a, e, k, acc) ==     \* bits k-1 .. 0 of e still to process
+  IF k = 0 THEN acc
+  ELSE LET sq == TLCEval(Mul(acc, acc)) IN
+       PowLFrom(a, e, k - 1, TLCEval(IF BitAt(e, k - 1) = 1 THEN Mul(sq, a) ELSE sq))
+PowL(a, e) == PowLFrom(a, e, Width, One)
+
 \* conversions with TLC integers (|n| small enough)
 RECURSIVE FromNat(_, _)
 FromNat(n, i) == IF i > NL THEN <<>> ELSE <<n % Base>> \o FromNat(n \div Base, i + 1)
